@@ -415,6 +415,8 @@ def run(ctx) -> None:
                 bad = reaches(ccfg.entry, ccfg.exit_return, ef2)
                 rep.add("C11.R3", f"{ch.qname}:returns-after-success", not bad, f"{ch.module.rel}:{ch.lineno}", "returns outputs only after the executor returned normally or a cache hit" if not bad else "can return outputs although the executor did not return normally")
 
+    check_state_only_grows(ctx, "C11.R3")
+
     # ---- R4 ---------------------------------------------------------------
     run_map = set(template_methods(db, "run") + template_methods(db, "map"))
     for f in db.funcs_in("runners"):
@@ -450,6 +452,50 @@ def run(ctx) -> None:
                     rep.add("C11.R4", inst, True, f"{f.module.rel}:{n.lineno}", "re-raises an exception object taken from the gathered results")
                 else:
                     rep.bad("C11.R4", inst, f"{f.module.rel}:{n.lineno}", "unrecognised raise form on the map error path")
+
+
+_REMOVALS = ("pop", "popitem", "clear")
+
+
+def check_state_only_grows(ctx, rule: str) -> None:
+    """Values completed in earlier steps stay in the state a failed run reports: nothing in the runners takes a value
+    (or its version) out of a GraphState — the state of a run only grows or is overwritten by a later production."""
+    db, rep = ctx.db, ctx.rep
+    from sa.effects import Effects
+
+    E = getattr(ctx, "_effects", None) or Effects(db)
+    n_f = 0
+    bad: list[tuple[FuncInfo, int, str]] = []
+    for f in db.funcs_in("runners"):
+        sps = [p_ for p_ in f.param_names if "GraphState" in src(f.param_annotation(p_) or ast.Constant(""))]
+        if f.cls is not None and f.cls.name == "GraphState":
+            sps = sps + ["self"]
+        local_states = {n_ for n_, ds in db.local_defs(f).items() if any(isinstance(d, (ast.Assign, ast.AnnAssign)) and isinstance(getattr(d, "value", None), ast.Call) and (src(d.value.func).endswith(".copy") and any(b in src(d.value.func) for b in sps + ["state"]) or (dotted(d.value.func) or "").endswith("GraphState") or "initialize_state" in src(d.value.func)) for d in ds)}
+        if not sps and not local_states:
+            continue
+        n_f += 1
+        for p_ in sps:
+            for e in E.writes(f, p_, include_unknown=False):
+                if e.kind == "mutate" and e.path and e.path[0] in ("values", "versions") and (e.detail.startswith("del ") or any(f".{m}(" in e.detail for m in _REMOVALS)):
+                    bad.append((f, e.lineno, f"{e.detail} (in {e.func})"))
+        for n in walk_local(f.node):
+            recv = None
+            if isinstance(n, ast.Call) and isinstance(n.func, ast.Attribute) and n.func.attr in _REMOVALS:
+                recv = n.func.value
+            elif isinstance(n, ast.Delete) and isinstance(n.targets[0], ast.Subscript):
+                recv = n.targets[0].value
+            if isinstance(recv, ast.Attribute) and recv.attr in ("values", "versions") and isinstance(recv.value, ast.Name) and recv.value.id in local_states:
+                bad.append((f, n.lineno, src(n)[:60]))
+    seen = set()
+    for f, ln, what in bad:
+        key = f"{f.qname}:state-only-grows"
+        if key in seen:
+            continue
+        seen.add(key)
+        rep.bad(rule, key, f"{f.module.rel}:{ln}", f"'{what}' removes an entry from the run state: a value completed in an earlier step (e.g. by another, ordered or exclusive, producer of the same name) disappears from the partial results a failed run reports")
+    if n_f < 20:
+        raise AnalysisError(f"only {n_f} functions handling a GraphState found")
+    rep.add(rule, "runners:state-only-grows", not bad, "src/hypergraph/runners", f"{n_f} function(s) that receive or create a run state: none removes a value or version from it" if not bad else f"{len(bad)} removal(s) from a run state")
 
 
 def _is_state_write(n: N) -> bool:
@@ -547,6 +593,7 @@ VARIANTS = [
     Variant("template-error-path-onmissing", TS, replace_once("partial_values = filter_outputs(partial_state, graph, select) if partial_state is not None else {}", "partial_values = filter_outputs(partial_state, graph, select, on_missing) if partial_state is not None else {}"), {"C11.R5"}),
     Variant("filter-default-policy-error", "src/hypergraph/runners/_shared/helpers.py", replace_once("    select: str | list[str] | Any = _UNSET_SELECT,\n    on_missing: str = \"ignore\",\n) -> dict[str, Any]:", "    select: str | list[str] | Any = _UNSET_SELECT,\n    on_missing: str = \"error\",\n) -> dict[str, Any]:"), {"C11.R5"}),
     Variant("twin-handler-alias", SR, replace_once("            except Exception as e:\n                raise ExecutionError(e, state) from e", "            except Exception as exc:\n                cause = exc\n                raise ExecutionError(cause, state) from exc"), set()),
+    Variant("sync-failed-node-outputs-popped-from-state", SS, replace_once("                if isinstance(e, Exception):\n                    raise ExecutionError(e, new_state) from e\n", "                if isinstance(e, Exception):\n                    for failed_name in node.outputs:\n                        new_state.values.pop(failed_name, None)\n                    raise ExecutionError(e, new_state) from e\n"), {"C11.R3"}),
     Variant("async-break-at-first-failure", AS, replace_once("            if first_error is None:\n                first_error = result\n            continue\n", "            first_error = result\n            break\n"), {"C11.R3"}),
     Variant("twin-async-errors-collected-in-list", AS, chain(replace_once("    first_error: BaseException | None = None\n", "    errors: list[BaseException] = []\n"), replace_once("            if first_error is None:\n                first_error = result\n            continue\n", "            errors.append(result)\n            continue\n"), replace_once("    if first_error is not None:\n", "    first_error = errors[0] if errors else None\n    if first_error is not None:\n")), set()),
 ]
